@@ -66,7 +66,13 @@ def run(payload):
     failures, n, nontrivial = [], 0, 0
     fixed = [("model F0 Real x; Real y; Real s; equation der(s) = x; 3 = x; y = x + 1; end F0;", "F0"),
              ("model F1 Real a; Real b; Real c; Real s; equation der(s) = c; a = 2.5; a = b; b = c; end F1;", "F1"),
-             ("model F2 Real a; Real b; Real s; equation der(s) = a - b; a + b = 0; a = 2 * s; end F2;", "F2")]
+             ("model F2 Real a; Real b; Real s; equation der(s) = a - b; a + b = 0; a = 2 * s; end F2;", "F2"),
+             # alias cycles with an odd number of negative links: regular systems whose only solution is zero; the closing
+             # equation relates a variable to its own negation and must not be consumed as an alias
+             ("model F3 Real a; Real b; Real c; equation a = b; c = a; c + b = 0; end F3;", "F3"),
+             ("model F4 Real a; Real b; Real s; equation der(s) = a + 1; a = b; a + b = 0; end F4;", "F4"),
+             ("model F5 Real a; Real b; Real c; Real s; equation der(s) = c + s; a = -b; b = c; c = a; end F5;", "F5"),
+             ("model F6 Real a; Real b; Real c; Real s; equation der(s) = 2 * s; c + b = 0; a = b; c = a; end F6;", "F6")]
     models = fixed + [(S.gen_model(rng, i)[0], "M%d" % i) for i in range(n_models)]
     for txt, name in models:
         for opts in S.option_sets(tier):
@@ -111,7 +117,7 @@ def main():
     failures, n, nontrivial = run(payload)
     if payload.get("mode") == "bounded":
         print(json.dumps({"performed": True, "cases": n, "distinct_nontrivial": nontrivial, "failures": failures,
-                          "rule": "generated triangular-affine models (alias chains, signed aliases in both spellings, constant assignments incl. literal-on-the-left, constant factors, eliminable _t variables, parameter expressions) x option combinations: recorded aliases/constants must hold in the exact original solution, the simplified residual must vanish there and still determine the remaining unknowns",
+                          "rule": "generated triangular-affine models (alias chains, signed aliases in both spellings, alias cycles with an odd number of negative links, constant assignments incl. literal-on-the-left, constant factors, eliminable _t variables, parameter expressions) x option combinations: recorded aliases/constants must hold in the exact original solution, the simplified residual must vanish there and still determine the remaining unknowns",
                           "bound": "%d model/option pairs; models affine (solved exactly)" % n}))
     else:
         f = failures[0] if failures else None
